@@ -14,6 +14,7 @@ CONSTANTS LNames, LVals,   \* label names / values (values never empty: the API 
           MaxBatch,        \* longest batch enumerated exhaustively
           MaxStr,          \* every width sequence up to this length is enumerated
           MaxRep,          \* uniform strings w^k up to k = MaxRep
+          Ends,            \* the kinds of alert ends of the universe (subset of AllEnds)
           Pick(_)          \* PickAll: exhaustive; PickOne: one random element (simulation)
 PickAll(S) == S
 PickOne(S) == {RandomElement(S)}
@@ -21,7 +22,7 @@ PickOne(S) == {RandomElement(S)}
 KVs(N, V) == UNION {[D -> V] : D \in SUBSET N}
 LabelU    == {kv \in KVs(LNames, LVals) : DOMAIN kv # {}}   \* an alert has at least one label
 AnnU      == KVs(ANames, AVals)
-Ends      == {"past", "none", "future"}
+ASSUME Ends \subseteq AllEnds
 AlertU    == [l : LabelU, a : AnnU, end : Ends]
 GroupU    == {NoKV, [a |-> "x"]}
 Widths    == 1 .. 4
@@ -77,6 +78,9 @@ BatchLaws == c.k = "batch" =>
       elig == IF c.sr THEN all ELSE FiringIdx(b, all)
   IN
   /\ d.idx = all /\ StatusLaw(b, d) /\ PartitionLaw(b, d)
+  \* where the end came from (client / resolve_timeout) makes no difference
+  /\ \A i \in 1 .. Len(b) : (AlertStatus(b[i]) = "resolved") <=> (b[i].end \in {"past", "tpast"})
+  /\ (d.status = "resolved") <=> (\A i \in 1 .. Len(b) : b[i].end \in {"past", "tpast"})
   /\ CommonLaw(LabelsOf(b, all), d.cl) /\ CommonLaw(AnnsOf(b, all), d.ca)
   /\ TruncateLaw(c.max, elig, TruncateAlerts(c.max, elig))
   \* what is posted: the eligible alerts cut to max_alerts, in order, the rest counted
@@ -131,6 +135,8 @@ DataExp(b, idx, gl) ==
 BatchObs(b, gl, sr, max) ==
   LET w == WebhookRef(sr, max, b, gl) IN
   [k |-> "batch", alerts |-> b, gl |-> gl, sr |-> sr, max |-> max,
+   sts |-> [i \in 1 .. Len(b) |-> AlertStatus(b[i])],             \* per alert: status and which end is shown
+   ends |-> [i \in 1 .. Len(b) |-> ExposedEnd(b[i])],
    td |-> DataExp(b, Indices(Len(b)), gl),                        \* notify.GetTemplateData on the whole batch
    wh |-> [sent |-> w.sent, dropped |-> w.dropped, data |-> DataExp(b, w.data.idx, gl)]]
 =============================================================================
